@@ -130,6 +130,21 @@ func runSvcStream(r *h.Result, rng *h.Rng, n, maxOps, connFailBudget int, big bo
 			scs = append(scs, sc)
 		}
 	}
+	// in chunks: results hold decoded blocks and are dropped as soon as they are compared and judged
+	const chunk = 120
+	for base := 0; base < len(scs); base += chunk {
+		end := base + chunk
+		if end > len(scs) {
+			end = len(scs)
+		}
+		if err := runSvcChunk(r, scs[base:end], base, judge); err != nil {
+			return err
+		}
+	}
+	return nil
+}
+
+func runSvcChunk(r *h.Result, scs []*scenario, base int, judge func(*h.Result, *scenario, *scenResult)) error {
 	results := make([]*scenResult, len(scs))
 	var wg sync.WaitGroup
 	sem := make(chan struct{}, 12)
@@ -148,7 +163,7 @@ func runSvcStream(r *h.Result, rng *h.Rng, n, maxOps, connFailBudget int, big bo
 	for i, res := range results {
 		sc := scs[i]
 		if res.err != nil {
-			return fmt.Errorf("scenario %d: %v", i, res.err)
+			return fmt.Errorf("scenario %d: %v", base+i, res.err)
 		}
 		nreq, nonRect := 0, false
 		for _, id := range sortedKeys(res.reqs) {
@@ -174,7 +189,7 @@ func runSvcStream(r *h.Result, rng *h.Rng, n, maxOps, connFailBudget int, big bo
 		if strings.Contains(res.implOut, "x") && strings.HasSuffix(res.implOut, "#crashed") {
 			r.Count("svc:crash")
 		}
-		if i%53 == 0 {
+		if (base+i)%53 == 0 {
 			r.Sample(map[string]any{"stream": "svc", "model_line": trunc(res.modelOps, 400), "impl": trunc(res.implOut, 400)})
 		}
 		judge(r, sc, res)
@@ -368,6 +383,27 @@ func c01HandlerSeq(r *h.Result, rng *h.Rng, n int) error {
 		r.Case(fmt.Sprintf("handler-seq:%d:%s:%s:%v", attempts, tsS, splS, badBody), attempts > 0 && !badBody)
 		r.Count(fmt.Sprintf("handler-seq:attempts=%d", attempts))
 		r.Count("handler-seq:status=" + status)
+		if status == "success" && !badBody {
+			// oracle with a concrete witness: both lines in an accepted samples block, the series row in an accepted series block
+			splEnv, tsEnv := rig.envs["samples"], rig.envs["timeSeries"]
+			splEnv.mu.Lock()
+			have := map[uint64]bool{}
+			for _, lb := range splEnv.okBlocks {
+				for _, v := range lb.blk.Data["string"] {
+					have[v] = true
+				}
+			}
+			splEnv.mu.Unlock()
+			tsEnv.mu.Lock()
+			tsOk := len(tsEnv.okBlocks)
+			tsEnv.mu.Unlock()
+			if !have[uint64(5000+i*8)] || !have[uint64(5001+i*8)] || tsOk == 0 {
+				r.Violate("C01/2xx-without-successful-insert",
+					fmt.Sprintf("one push (1 new series, 2 lines), attempts=%d, Do outcomes series=%s samples=%s (1 = nil): answered %d but accepted blocks hold lines %v and %d series block(s)",
+						attempts, tsS, splS, code, have, tsOk),
+					map[string]any{"stream": "handler-seq", "attempts": attempts, "series_do_outcomes": tsS, "samples_do_outcomes": splS, "code": code})
+			}
+		}
 		if status == "hang" {
 			r.Violate("C01/no-answer", fmt.Sprintf("push with attempts=%d, series outcomes %s, samples outcomes %s got no answer within 20 s", attempts, tsS, splS),
 				map[string]any{"stream": "handler-seq", "attempts": attempts, "ts": tsS, "spl": splS})
@@ -570,7 +606,7 @@ func c01(r *h.Result, rng *h.Rng, tier string, replay string) error {
 	}
 	nScen, maxOps, connFail, nRetry, nSeq := 300, 40, 16, 400, 40
 	if tier == "thorough" || tier == "search" {
-		nScen, maxOps, connFail, nRetry, nSeq = 5000, 200, 150, 5000, 300
+		nScen, maxOps, connFail, nRetry, nSeq = 2400, 120, 120, 5000, 200
 	}
 	r.Rule = "svc: op sequences (bursts of 1–4 requests of 0–50 rows, triggers, iterations with connect ok/fail, Do ok 65 %/err, stops) over the six tables, 1–3 sub-services per group, MaxQueueSize ∈ {0,1,60–260,1e5}, 12 % of the sequences may contain malformed requests; non-trivial = at least one request and one Do; distinct by implementation event log. retry/handler-seq: distinct by (attempts, outcome strings). soak: one case per configuration, non-trivial = both 2xx and 5xx answers seen"
 	r.Stream("svc: impl.New{Samples,TimeSeries,Metrics,TempoSamples,TempoTags,ProfileSamples}InsertService + fake IChClientFactory, driven through Request/PlanFlush/VerifIterateIfDue/Stop with scripted connect and Do outcomes, vs Batcher.Multi.run (event log with decoded blocks + per-sub-service bookkeeping)")
@@ -606,6 +642,9 @@ func c01(r *h.Result, rng *h.Rng, tier string, replay string) error {
 
 func loadReplayScenario(path string) *scenario {
 	b, err := os.ReadFile(path)
+	if err != nil {
+		b, err = os.ReadFile(filepath.Join("..", path)) // ./check passes the path as given, relative to /verif
+	}
 	if err != nil {
 		return nil
 	}
